@@ -262,6 +262,26 @@ def run_case(case, rec, log, rng):
                 return None
             if i > 0 and not np.abs(matrix[i] - matrix[i - 1]).max() <= 1e-9 * scale:
                 disc = True
+    # (iv) the SAME filled dataset model after the IRF parameters were changed in place: equal to a freshly filled one
+    try:
+        case2 = dict(case, vals=dict(case["vals"]))
+        for k in list(case2["vals"]):
+            if k[0] in "cw" and k[1:].isdigit():
+                case2["vals"][k] = case2["vals"][k] * 1.3 + (0.37 * case["vals"]["w0"] if k[0] == "c" else 0.0)
+                params.get(k).value = case2["vals"][k]
+        if not any((oracle_index_parameters(case2, i)[1] <= 0).any() for i in range(len(g))):
+            l_re, m_re = dm.megacomplex[0].calculate_matrix(dm, g, t)
+            m3, p3, _ = build(case2)
+            dm3 = fill_item(m3.dataset["d"], m3, p3)
+            l_fr, m_fr = dm3.megacomplex[0].calculate_matrix(dm3, g, t)
+            rec.count("reused_filled_models_checked")
+            m_re, m_fr = np.asarray(m_re), np.asarray(m_fr)
+            if list(l_re) != list(l_fr) or m_re.shape != m_fr.shape or not np.allclose(m_re, m_fr, rtol=1e-13, atol=1e-300, equal_nan=True):
+                d = float(np.nanmax(np.abs(m_re - m_fr))) if m_re.shape == m_fr.shape else float("inf")
+                rec.violation("reuse:stale-irf-parameters", ctx, f"the filled dataset model re-evaluated after its IRF centre / width parameters were changed in place differs from a freshly filled model by {d:.3e}")
+                return None
+    except KeyError:
+        pass
     return bool(nontrivial and (disc or not idxdep))
 
 
